@@ -157,7 +157,27 @@ def plan_C10(ctx):
     ctx.exhaustive = True
 
 
+def plan_C11(ctx):
+    ctx.rule = ("TLC enumerates 14 data trees (objects with dotted/backslashed/numeric/non-ASCII keys, nested arrays, strings, scalars, rule-shaped data) x 102 keys "
+                "(escaped paths, integer keys incl. all 64-bit boundaries, negative indices, null, \"\", ill-typed) x 6 forms (with/without default, bracket-less, "
+                "operand-less, computed key, data extended with an unnamed sibling) x 5 defaults; one case per TLC state; cases whose key the statement leaves open are drift-only")
+    cases = ctx.mc("MC_C11")
+    ctx.replay(cases)
+    ctx.exhaustive = True
+
+
+def plan_C12(ctx):
+    ctx.rule = ("TLC enumerates 7 data trees x all key lists of length 0..%d over 12 keys (dotted/escaped paths, integer, null, u64, duplicates) x 4 spellings of missing "
+                "(operand list, first-operand array, computed list, array plus extra operand) and missing_some with thresholds 0..5 (literal and computed lists); "
+                "one case per TLC state" % (4 if ctx.deep else 3))
+    cases = ctx.mc("MC_C12")
+    ctx.replay(cases)
+    ctx.exhaustive = True
+
+
 PLANS = {
+    "C12": plan_C12,
+    "C11": plan_C11,
     "C10": plan_C10,
     "C07": plan_rel,
     "C08": plan_rel,
